@@ -21,6 +21,7 @@ DRIVERS = {
     'switch_ops': {'vm': 'iteration'},
     'if_then': {'vm': 'iteration'},
     'lazy_logic': {'vm': 'iteration'},
+    'try_catch': {'vm': 'iteration'},
     'config_ops': {'vm': 'config_ops'},
     'waituntil': {'vm': 'waituntil'},
     'operators_total': {'vm': 'operators_total'},
